@@ -9,6 +9,7 @@ mod cerr;
 mod classicenv;
 mod cldb;
 mod cldbsrc;
+mod cldbtree;
 mod conv;
 mod crash;
 mod coresyms;
@@ -61,6 +62,7 @@ fn main() {
         "step" => step::run(&rest),
         "cldb" => cldb::run(&rest),
         "cldb-compile" => cldbsrc::run(&rest),
+        "cldb-tree" => cldbtree::run(&rest),
         "reader" => reader::run(&rest),
         "cerr" => cerr::run(&rest),
         "repl" => repl::run(&rest),
